@@ -120,8 +120,8 @@ fn dump_succeeds_when_no_thread_can_be_attached() {
     use nix::sys::{ptrace, wait::waitpid};
     let mut child = start_child_and_wait_for_threads(1);
     let pid = nix::unistd::Pid::from_raw(child.id() as i32);
-    ptrace::attach(pid).expect("attach from the test");
-    waitpid(pid, None).expect("waitpid");
+    ptrace::attach(pid).expect("setup: attach from the test");
+    waitpid(pid, None).expect("setup: waitpid");
     let r = MinidumpWriter::new(pid.as_raw(), pid.as_raw()).dump(&mut Cursor::new(Vec::new()));
     let _ = ptrace::detach(pid, None);
     child.kill().expect("Failed to kill process");
